@@ -186,7 +186,9 @@ func runC15(rc *RC) {
 	if mw != nil {
 		steps = rc.Range(1, 18)
 	}
-	mix := opMix{noInvalid: true, richTypes: true, cycles: true, geometryPct: 85}
+	// some operations are invalid and must be rejected: the reference
+	// queries have to answer from the current features afterwards as well
+	mix := opMix{invalidPct: 20, richTypes: true, cycles: true, geometryPct: 85}
 	for i := 0; i < steps; i++ {
 		o := g.genOp(mix)
 		rc.Case(o.String())
@@ -196,8 +198,13 @@ func runC15(rc *RC) {
 		}
 		rc.Notef("#%d %s -> %v", i, o, err)
 		if err != nil {
-			if o.Kind == "add" {
-				rc.Fail(name+"/valid-add-rejected", "%s is valid but was rejected: %v", o, err)
+			// rejected (whether or not the generator expected it: once a
+			// point has been moved, a ring the generator believes valid can
+			// be clockwise): nothing may have changed
+			if o.Invalid != "" {
+				rc.Fired("reject")
+			}
+			if !check(w, "the rejected "+o.String()) {
 				return
 			}
 			continue
